@@ -105,11 +105,12 @@ Section Todo.
     intros s e D Hse H. todo_cases; try discriminate; split; solve_xt.
   Qed.
 
-  Lemma vtodo_P3 : forall D, td_dtstart t <> None ->
+  Lemma vtodo_P3 : forall D,
+      (td_dtstart t <> None \/ td_due t <> None \/ td_completed t <> None \/ td_created t <> None) ->
       exists c1 rest, vtodo_calls t false D = c1 :: rest /\ xle (Fin D) (c_e c1) = true
                       /\ xlt (c_s c1) PInf = true /\ c_rec c1 = false.
   Proof.
-    intros D Hs. todo_cases; try congruence; eexists _, _; (split; [reflexivity|]);
+    intros D Hs. todo_cases; try (exfalso; intuition congruence); eexists _, _; (split; [reflexivity|]);
       unfold fcall, xle; cbn; repeat split; lia.
   Qed.
 
